@@ -331,6 +331,10 @@ impl Property for C15 {
     fn id(&self) -> &'static str {
         "C15"
     }
+    fn case_deadline_s(&self) -> Option<u64> {
+        // the statement claims termination; ordinary cases take milliseconds
+        Some(60)
+    }
     fn rule(&self) -> String {
         "strata: (exhaustive) every string over the 9-character alphabet `{}()<>,a` + space up to the length bound, by index; \
          (random) tape-decoded hostile strings incl. arbitrary Unicode/control characters; (nested) tape-decoded properly nested \
